@@ -32,6 +32,11 @@ def make_marked_twin(crate_dir, name):
         if not f.endswith(".rs"):
             continue
         src = open(os.path.join(crate_dir, "src", f)).read()
+        if re.search(r"^//! twin: skip", src, re.M):
+            # attribute inside a macro definition: the file is copied as is and not walked
+            open(os.path.join(dst, "src", f), "w").write(src)
+            attrs[f[:-3]] = None
+            continue
         out = []
         rem = []
         i = 0
